@@ -17,7 +17,7 @@ func init() {
 			"(R2) in the handler loop a user pop happens only after the system queue was observed empty, from entry and between any two user pops; " +
 			"(R3) every OnKill / restart message is told with system flag = !Poison and the restart path forwards Poison unchanged; " +
 			"(R4) Unstash re-enqueues stash[0..k) by an ascending traversal and removes exactly that prefix; (R5) the order of the queue is the order of processing because exactly one elected consumer pops and hands each popped value over synchronously (C01.R1/R5). " +
-			"NOT decided: order preservation of the ring's index arithmetic across growth (needs arithmetic reasoning over head/tail/mod), FIFO under concurrent senders (follows from R1 + mutual exclusion, not proved).",
+			"(R6) the stash is assigned only by Stash and Unstash (or by a function that first hands every element on): nothing else can drop or reorder stashed messages. NOT decided: order preservation of the ring's index arithmetic across growth (needs arithmetic reasoning over head/tail/mod), FIFO under concurrent senders (follows from R1 + mutual exclusion, not proved).",
 		Assumptions: []string{"a lock is identified by its struct field (instance-insensitive)", "sync.Mutex gives mutual exclusion"},
 		Rules: []Rule{
 			{ID: "C02.R1", Min: 20, Desc: "ring storage and indices only under the queue lock; length atomic+locked", Fn: c02Ring},
@@ -663,7 +663,6 @@ func c02Unstash(p *Program, r *Report) {
 		r.Check(len(eq) > 0 && g.DominatedByEdges(s, eq), "Unstash releases the array only when empty", st.Pos(), "stash = nil is stored only under an equality guard (restored count == stash length)")
 	}
 }
-
 
 // c02StashWriters: "stashed messages come back in the order they were stashed, each exactly once" — and (C03) a stashed message
 // sits in the stash until it is taken out. The stash is a plain slice of the context: any other writer (a "release" on
